@@ -116,9 +116,11 @@ Definition states_match (s : cstats) (sn : snapshot) : bool :=
   zlist_eqb (map (n_state (s_v6 s)) all_states) (firstn 4 v6).
 
 Inductive hrec :=
-| ROpen (c : N) (asn : N) (cc : bytes) (v4 : bool) (tracked nts : N)
+| ROpen (c : N) (asn : option N) (cc : option bytes) (v4 : bool) (tracked nts : N)   (* what GeoIP answers (None: the lookup fails) *)
 | RRead (c : N) (n : N) (calls : list (N * N))   (* transport number, answer: 0 again, 1 not, 2 found, 3 another error *)
 | RErr (c : N) (kind : N)                        (* 0 timeout, 1 eof / closed, 2 reset, 3 other *)
+| RRead1 (c : N) (n : N)                         (* a Read returned: only the update that ENTERS the check state so far ... *)
+| RRead2 (c : N) (calls : list (N * N))          (* ... and the update that leaves it (an epoch was forced in between) *)
 | REpoch (sn : snapshot).
 
 Record hist_case := {
@@ -152,33 +154,51 @@ Definition rkind_of (k : N) : rkind :=
 
 Fixpoint nseq (n : nat) : list N := match n with O => [] | S m => nseq m ++ [N.of_nat m] end.
 
-Fixpoint replay (exact : bool) (s : cstats) (tb : conn_tab) (rem : rem_tab) (evs : list hrec) : option cstats :=
+Fixpoint pend_find (c : N) (p : list (N * N)) : N :=
+  match p with [] => 0%N | (c0, n) :: p' => if (c0 =? c)%N then n else pend_find c p' end.
+
+Fixpoint replay (exact : bool) (s : cstats) (tb : conn_tab) (rem : rem_tab) (pend : list (N * N)) (evs : list hrec) : option cstats :=
   match evs with
   | [] => Some s
   | e :: evs' =>
     match e with
     | REpoch sn =>
       if negb exact || snap_matches s sn
-      then match run_ops code_guards s [SReset] with Ok s' => replay exact s' tb rem evs' | _ => None end
+      then match run_ops code_guards s [SReset] with Ok s' => replay exact s' tb rem pend evs' | _ => None end
       else None
+    | RRead1 c n =>
+      (* the first update of the iteration does not depend on the transports' answers *)
+      let '(ops, _) := gev_ops tb (GEv c (HRead n IMore)) in
+      match run_ops code_guards s (firstn 1 ops) with
+      | Ok s' => replay exact s' tb rem ((c, n) :: pend) evs'
+      | _ => None
+      end
+    | RRead2 c calls =>
+      let '(o, rem') := iter_of_calls (rem_find c rem) calls in
+      let '(ops, tb') := gev_ops tb (GEv c (HRead (pend_find c pend) o)) in
+      match run_ops code_guards s (skipn 1 ops) with
+      | Ok s' => replay exact s' tb' (rem_set c rem' rem) pend evs'
+      | _ => None
+      end
     | ROpen c asn cc v4 tracked nts =>
-      let g := GOpen c {| k_asn := asn; k_cc := cc; k_v4 := v4 |} (tracked <? 1)%N (nts <? 1)%N in
+      let '(cc', asn') := geo_lookup (fun _ => cc) (fun _ => asn) [] in
+      let g := GOpen c {| k_asn := asn'; k_cc := cc'; k_v4 := v4 |} (tracked <? 1)%N (nts <? 1)%N in
       let '(ops, tb') := gev_ops tb g in
       match run_ops code_guards s ops with
-      | Ok s' => replay exact s' tb' (rem_set c (nseq (N.to_nat nts)) rem) evs'
+      | Ok s' => replay exact s' tb' (rem_set c (nseq (N.to_nat nts)) rem) pend evs'
       | _ => None
       end
     | RRead c n calls =>
       let '(o, rem') := iter_of_calls (rem_find c rem) calls in
       let '(ops, tb') := gev_ops tb (GEv c (HRead n o)) in
       match run_ops code_guards s ops with
-      | Ok s' => replay exact s' tb' (rem_set c rem' rem) evs'
+      | Ok s' => replay exact s' tb' (rem_set c rem' rem) pend evs'
       | _ => None
       end
     | RErr c k =>
       let '(ops, tb') := gev_ops tb (GEv c (HReadErr (rkind_of k))) in
       match run_ops code_guards s ops with
-      | Ok s' => replay exact s' tb' rem evs'
+      | Ok s' => replay exact s' tb' rem pend evs'
       | _ => None
       end
     end
@@ -186,7 +206,7 @@ Fixpoint replay (exact : bool) (s : cstats) (tb : conn_tab) (rem : rem_tab) (evs
 
 Definition chk_hist (h : hist_case) : bool :=
   (* in a hammer history the epochs are not in the log: the model runs without them *)
-  match replay (hc_exact h) init_stats [] [] (hc_events h) with
+  match replay (hc_exact h) init_stats [] [] [] (hc_events h) with
   | Some s => if hc_exact h then snap_matches s (hc_final h) else states_match s (hc_final h)
   | None => false
   end.
